@@ -129,6 +129,37 @@ func runC06(c C06Case, ev *Evid) (fs []Finding) {
 			return
 		}
 		path = filepath.Join(dir, "dest", "f.wsp")
+	case "go-whisper-sparse":
+		// a layout whose file is between 2 GiB and 4 GiB, created sparse by the reference implementation
+		saved := gw.Now
+		gw.Now = func() time.Time { return time.Unix(now, 0) }
+		db, err := gw.CreateWithOptions(path, gwRetentions(c.H.L), gw.AggregationMethod(c.H.L.Method), c.H.L.XFF, &gw.Options{Sparse: true})
+		if err != nil {
+			gw.Now = saved
+			ev.Discard("go-whisper-create-failed")
+			return nil
+		}
+		guard(func() { db.Update(42.5, int(now-3)) })
+		db.Close()
+		gw.Now = saved
+		st, serr := os.Stat(path)
+		if serr != nil || st.Size() != c.H.L.FileSize() {
+			ev.Discard("sparse-file-unavailable")
+			return nil
+		}
+		w, werr := openWT(path, wt.WithoutFlock())
+		if werr != nil {
+			add("whispertool-open", "whispertool cannot open a %d-byte reference-written file (%s): %v", st.Size(), c.H.L, werr)
+			return
+		}
+		r := fetchWT(w, -1, now-10, now, now)
+		w.Close()
+		if r.Err != nil || r.Nil || len(r.S.Values) != 10 || r.S.Values[6] != 42.5 {
+			add("fetch-value-mismatch", "reading the reference-written %d-byte file: err=%v nil=%v values=%v (42.5 was stored at now-3)", st.Size(), r.Err, r.Nil, r.S.Values)
+			return
+		}
+		ev.Count(HashJSON(c), true, "writer=go-whisper-sparse", "file>2GiB")
+		return nil
 	case "go-whisper":
 		saved := gw.Now
 		defer func() { gw.Now = saved }()
@@ -361,5 +392,9 @@ func TestC06(t *testing.T) {
 			return c
 		},
 		Run: runC06,
+		Fixed: func() []C06Case {
+			y := int64(365 * 86400)
+			return []C06Case{{Writer: "go-whisper-sparse", H: HistCase{L: Layout{Archives: []Arch{{Step: 1, Points: 6 * y}}, Method: 2, XFF: 0.5}, Now: 1600000000}}}
+		},
 	})
 }
